@@ -1,22 +1,111 @@
-(* C14 — constant visibility follows file scope.  PLACEHOLDER (examples of the oracle); extended below when the model-based theorems are in. *)
-From Coq Require Import ZArith NArith List.
-From Trion Require Import Text.Types Asm.ScopeSpec.
+(* C14 — constant visibility follows file scope.
+   Theorems about the Context model (Asm/CtxModel.v); the visibility relation itself (which name with which value is
+   visible at which use site) is the executable oracle Asm/ScopeSpec.v, checked on the implementation's output for
+   generated multi-file projects by the correspondence stream of ./check C14.
+
+   NOT proved (kept as comments):
+     C14_use_sites : pipeline = Success -> every `.du32 x` of occurrence o emits v with ScopeSpec-visible p o x v
+                     (model |= ScopeSpec; decided by the stream on the implementation, not by proof);
+     C14_isolation (full) : after `.include g` the includer's table differs ONLY on names g exported or declared global
+                     (needs a ghost set of exported names; proved below: the table only grows, the table above it is
+                     untouched, the included file starts from the empty table);
+     "never Panic" for arbitrary states (needs the invariant that tables hold no register names); the diagnostics below
+     are equations `... = Ret _ (push_error ...)`, so in the stated situations the model does not panic. *)
+From Coq Require Import ZArith NArith List Bool String.
+From Trion Require Import Text.Types Asm.ScopeSpec Asm.CtxModel Asm.ScopeProofs Asm.Ctx06Proofs.
 Import ListNotations.
-Open Scope Z_scope.
+Open Scope N_scope.
 
-Definition nA : name := [65%N].
-Definition fR : str := [114%N].
-Definition fC : str := [99%N].
+(* a constant's value never changes once defined: through a whole file including everything it includes, the tables
+   `globals` (the includer's, while a file is open) and `locals` keep every entry that has a value *)
+Theorem C14_monotone : forall dbg fs fuel st data path r st',
+  assemble dbg fs fuel st data path = Ret r st' ->
+  (forall n v, tbl_get (globals st) n = Some (Some v) -> tbl_get (globals st') n = Some (Some v)) /\
+  match locals st, locals st' with
+  | Some t, Some t' => forall n v, tbl_get t n = Some (Some v) -> tbl_get t' n = Some (Some v)
+  | None, None => True
+  | _, _ => False
+  end.
+Proof. exact assemble_tm. Qed.
 
-(* child exports A: visible in the root with the child's value; not exported: invisible; sibling reuse is fine *)
+(* the same for one statement, one deferred task, and the two writers themselves *)
+Theorem C14_monotone_step : forall dbg fs fuel st e r st',
+  step dbg fs (assemble dbg fs fuel) st e = Ret r st' -> tmono st st'.
+Proof. exact step_mono. Qed.
+Theorem C14_monotone_task : forall dbg st t r st', run_task dbg st t = Ret r st' -> tmono st st'.
+Proof. exact run_task_tm. Qed.
+Theorem C14_monotone_insert : forall st n v r x st', insert_constant st n v r = Ret x st' -> tmono st st'.
+Proof. exact insert_constant_tm. Qed.
+Theorem C14_monotone_defer : forall st n r x st', defer_constant st n r = Ret x st' -> tmono st st'.
+Proof. exact defer_constant_tm. Qed.
+
+(* isolation (partial): an included file cannot touch the table above its includer, and it starts from the empty table
+   with its includer's table as the only other one it can reach *)
+Theorem C14_isolation_partial_above : forall dbg fs fuel st data path r st',
+  assemble dbg fs fuel st data path = Ret r st' -> locals st <> None -> globals st' = globals st.
+Proof. exact assemble_above_untouched. Qed.
+Theorem C14_isolation_partial_fresh : forall st path,
+  locals (fst (enter_file st path)) = Some [] /\ (forall t, locals st = Some t -> globals (fst (enter_file st path)) = t).
+Proof. exact enter_file_scope. Qed.
+
+(* ---- C14_diagnostics: each listed scope error yields its diagnostic (an equation, hence no panic) ---- *)
+Theorem C14_diag_duplicate_label : forall dbg fs inc st s l c n w t, is_register n = false -> active st = Active s ->
+  locals st = Some t -> tbl_get t n = Some (Some w) ->
+  step dbg fs inc st (mkElement l c (ELabel n)) = Ret (Some Fatal) (push_error st l c KConstDuplicate).
+Proof. exact label_duplicate. Qed.
+Theorem C14_diag_duplicate_const : forall st l c n v w t, is_register n = false -> locals st = Some t -> tbl_get t n = Some (Some w) ->
+  dir_const st l c [AIdent n; AConst v] = Ret (Some Fatal) (push_error st l c (KApply AConstDup)).
+Proof. exact const_duplicate. Qed.
+Theorem C14_diag_duplicate_import : forall st l c x t v w, is_register x = false -> locals st = Some t -> tbl_get t x = Some (Some w) ->
+  tbl_get (globals st) x = Some (Some v) ->
+  dir_global st l c DImport [AIdent x] = Ret (Some Fatal) (push_error st l c (KApply AGDuplicate)).
+Proof. exact import_duplicate. Qed.
+Theorem C14_diag_export_includer_has : forall st l c x t v w, is_register x = false -> locals st = Some t -> tbl_get t x = Some (Some v) ->
+  tbl_get (globals st) x = Some (Some w) ->
+  dir_global st l c DExport [AIdent x] = Ret (Some Fatal) (push_error st l c (KApply AGDuplicate)).
+Proof. exact export_includer_has. Qed.
+Theorem C14_diag_global_includer_has : forall st l c x e, is_register x = false -> tbl_get (globals st) x = Some e ->
+  dir_global st l c DGlobal [AIdent x] = Ret (Some Fatal) (push_error st l c (KApply AGDuplicate)).
+Proof. exact global_includer_has. Qed.
+Theorem C14_diag_import_includer_lacks : forall st l c x, tbl_get (globals st) x = None ->
+  dir_global st l c DImport [AIdent x] = Ret (Some Fatal) (push_error st l c (KApply AGNotFound)).
+Proof. exact import_includer_lacks. Qed.
+Theorem C14_diag_export_unknown : forall st l c x t, locals st = Some t -> tbl_get t x = None ->
+  dir_global st l c DExport [AIdent x] = Ret (Some Fatal) (push_error st l c (KApply AGNotFound)).
+Proof. exact export_unknown. Qed.
+Theorem C14_diag_export_unvalued : forall st l c x t, locals st = Some t -> tbl_get t x = Some None ->
+  dir_global st l c DExport [AIdent x] = Ret (Some Fatal) (push_error st l c (KApply AGDeferred)).
+Proof. exact export_unvalued. Qed.
+Theorem C14_diag_global_unvalued : forall dbg st l c x t, locals st = Some t -> tbl_get t x = Some None ->
+  run_task dbg st (GlobalTask x l c) = Ret (Some Trivial) (push_error st l c (KApply AGDeferred)).
+Proof. exact global_unvalued. Qed.
+Theorem C14_diag_import_redefined : forall dbg st l c x t v, locals st = Some t -> tbl_get t x = Some (Some v) ->
+  run_task dbg st (ImportCheckTask x l c) = Ret (Some Trivial) (push_error st l c (KApply AGDuplicate)).
+Proof. exact import_redefined. Qed.
+Theorem C14_diag_register_label : forall dbg fs inc st s l c n, is_register n = true -> active st = Active s ->
+  step dbg fs inc st (mkElement l c (ELabel n)) = Ret (Some Fatal) (push_error st l c KConstReserved).
+Proof. exact label_register. Qed.
+Theorem C14_diag_register_const : forall st l c n v, is_register n = true ->
+  dir_const st l c [AIdent n; AConst v] = Ret (Some Fatal) (push_error st l c (KApply AConstReserved)).
+Proof. exact const_register. Qed.
+Theorem C14_diag_register_global : forall st l c n, is_register n = true ->
+  dir_global st l c DGlobal [AIdent n] = Ret (Some Fatal) (push_error st l c (KApply AConstReserved)).
+Proof. exact global_register. Qed.
+
+(* ---- the oracle itself: examples (non-vacuity of ScopeSpec) ---- *)
+Definition nA : name := [65].
+Definition fR : str := [114].
+Definition fC : str := [99].
+
 Theorem C14_examples :
   j_verdict (judge_project (mkProject [(fR, [SAddr 256; SInclude fC; SUse nA]); (fC, [SConst nA 7; SExport nA])] fR)) = Accept /\
-  j_uses (judge_project (mkProject [(fR, [SAddr 256; SInclude fC; SUse nA]); (fC, [SConst nA 7; SExport nA])] fR)) = [(0%N, Some 7)] /\
+  j_uses (judge_project (mkProject [(fR, [SAddr 256; SInclude fC; SUse nA]); (fC, [SConst nA 7; SExport nA])] fR)) = [(0, Some 7%Z)] /\
   j_verdict (judge_project (mkProject [(fR, [SAddr 256; SInclude fC; SUse nA]); (fC, [SConst nA 7])] fR)) = MustDiag RInvisibleUse /\
   j_verdict (judge_project (mkProject [(fR, [SAddr 256; SInclude fC; SInclude fC]); (fC, [SLabel nA; SUse nA])] fR)) = Accept /\
-  j_uses (judge_project (mkProject [(fR, [SAddr 256; SInclude fC; SInclude fC]); (fC, [SLabel nA; SUse nA])] fR)) = [(0%N, Some 256); (1%N, Some 260)] /\
+  j_uses (judge_project (mkProject [(fR, [SAddr 256; SInclude fC; SInclude fC]); (fC, [SLabel nA; SUse nA])] fR)) = [(0, Some 256%Z); (1, Some 260%Z)] /\
   j_verdict (judge_project (mkProject [(fR, [SAddr 256; SInclude fC; SInclude fC]); (fC, [SLabel nA; SExport nA])] fR)) = MustDiag RDuplicate /\
   j_verdict (judge_project (mkProject [(fR, [SAddr 256; SInclude fC; SConst nA 1]); (fC, [SImport nA; SUse nA])] fR)) = Unspecified /\
   j_verdict (judge_project (mkProject [(fR, [SAddr 256; SInclude fC]); (fC, [SImport nA])] fR)) = MustDiag RImportLacks /\
-  j_verdict (judge_project (mkProject [(fR, [SAddr 256; SConst [82%N;48%N] 1])] fR)) = MustDiag RRegisterName.
+  j_verdict (judge_project (mkProject [(fR, [SAddr 256; SGlobal nA; SInclude fC; SConst nA 7]); (fC, [SImport nA; SConst nA 77; SUse nA])] fR)) = MustDiag RDuplicate /\
+  j_verdict (judge_project (mkProject [(fR, [SAddr 256; SConst [82;48] 1])] fR)) = MustDiag RRegisterName.
 Proof. vm_compute. repeat split. Qed.
